@@ -2,10 +2,27 @@ package index
 
 import (
 	"encoding/binary"
+	"errors"
 	"io"
+	goMath "math"
 )
 
+var MetadataTooLargeErr error = errors.New("Metadata too large")
+
 type Metadata map[string]string
+
+// Validate checks that the metadata fit the length fields used by save.
+func (this Metadata) Validate() error {
+	if len(this) > goMath.MaxUint16 {
+		return MetadataTooLargeErr
+	}
+	for k, v := range this {
+		if len(k) > goMath.MaxUint8 || len(v) > goMath.MaxUint16 {
+			return MetadataTooLargeErr
+		}
+	}
+	return nil
+}
 
 func (this Metadata) bytesSize() uint64 {
 	var n int = 0
